@@ -168,6 +168,8 @@ def run(chk, repo, tier):
         factor_rule(chk, repo, 'C13.R2', fi, mode, stmts, 3, ret_index=1, what='returned scale')
     chk.floor('C13.R3', n3, 30)
     from_vector_rules(chk, repo, 'C13.R5')
+    from . import support
+    support.block_rules(chk, repo, 'C13.R6', ('svd',))
     chk.assume('factorisation contract U.diag(s).V == M of bond_ops.split_matrix_svd at tol = 0 (on the retained subspace '
                'otherwise); C12 decides its structural part')
     chk.undecided += ['every inequality of the statement (error bounds, scale interval, Schmidt values kept)']
